@@ -6,6 +6,7 @@ package main
 
 import (
 	"fmt"
+	"os"
 	"reflect"
 	"sort"
 	"strings"
@@ -123,6 +124,7 @@ func run(c *runner.Ctx) {
 	}
 	recursiveSpace(c, globalModel)
 	lateNames(c)
+	samePrintingTypes(c)
 	vals := valueMenu()
 	callSubsets := [][]string{{}, {"phone"}, {"zz"}, {"phone", "zz"}}
 	for _, tp := range typePairs {
@@ -261,6 +263,99 @@ type Node struct {
 	Name     string  `valid:"to=1~10"`
 	Next     *Node   `valid:"exist"`
 	Children []*Node `valid:"exist"`
+}
+
+// twoItemTypes returns two distinct struct types that print alike ("main.Item"): a rule set belongs to a type, not to
+// the type's printed name.
+func twoItemTypes() (reflect.Type, reflect.Type) {
+	type Item struct {
+		Name string `valid:"to=1~3|a-name"`
+		Code string `valid:"required|a-code"`
+	}
+	a := reflect.TypeOf(Item{})
+	var b reflect.Type
+	{
+		type Item struct {
+			Name string `valid:"to=1~5|b-name"`
+			Qty  int    `valid:"ge=1|b-qty"`
+		}
+		b = reflect.TypeOf(Item{})
+	}
+	return a, b
+}
+
+func samePrintingTypes(c *runner.Ctx) {
+	c.Space(c.Mode + ":same-printing-types")
+	a, b := twoItemTypes()
+	if a == b || a.String() != b.String() {
+		fmt.Fprintln(os.Stderr, "HARNESS-ERROR: the two Item types must be distinct and print alike")
+		os.Exit(3)
+	}
+	outer := reflect.StructOf([]reflect.StructField{
+		{Name: "A", Type: a, Tag: `valid:"exist"`}, {Name: "B", Type: reflect.PtrTo(b), Tag: `valid:"exist"`},
+		{Name: "LA", Type: reflect.SliceOf(a), Tag: `valid:"exist"`}, {Name: "MB", Type: reflect.MapOf(reflect.TypeOf(""), b), Tag: `valid:"exist"`},
+	})
+	names := []string{"x", "abcd", "abcdefg", "abcdefghi"}
+	sets := []struct {
+		name   string
+		ra, rb map[string]string
+	}{{"none", nil, nil}, {"a{Name}", map[string]string{"Name": "eq=9|ta-name"}, nil}, {"b{Name}", nil, map[string]string{"Name": "eq=7|tb-name"}},
+		{"a{Name},b{Name}", map[string]string{"Name": "eq=9|ta-name"}, map[string]string{"Name": "eq=7|tb-name"}}, {"a{Code}", map[string]string{"Code": "eq=2|ta-code"}, nil}}
+	for _, st := range sets {
+		for _, na := range names {
+			for _, nb := range names {
+				for _, order := range []bool{false, true} {
+					if !c.Take() {
+						continue
+					}
+					o := reflect.New(outer).Elem()
+					av := reflect.New(a).Elem()
+					av.Field(0).SetString(na)
+					av.Field(1).SetString("c")
+					bv := reflect.New(b)
+					bv.Elem().Field(0).SetString(nb)
+					bv.Elem().Field(1).SetInt(1)
+					o.Field(0).Set(av)
+					o.Field(1).Set(bv)
+					o.Field(2).Set(reflect.Append(reflect.MakeSlice(reflect.SliceOf(a), 0, 1), av))
+					mb := reflect.MakeMap(outer.Field(3).Type)
+					mb.SetMapIndex(reflect.ValueOf("k"), bv.Elem())
+					o.Field(3).Set(mb)
+					opts := walk.Opts{Typed: map[reflect.Type]map[string]string{}}
+					vs := valid.NewVStruct()
+					reg := func(first bool) {
+						if first && st.ra != nil {
+							opts.Typed[a] = st.ra
+							vs.SetRule(toRM(st.ra), reflect.New(a).Interface())
+						}
+						if !first && st.rb != nil {
+							opts.Typed[b] = st.rb
+							vs.SetRule(toRM(st.rb), reflect.New(b).Elem().Interface())
+						}
+					}
+					reg(!order)
+					reg(order)
+					exp := walk.Struct(o.Addr().Interface(), opts)
+					var err error
+					pan, msg, site := runner.Guard(func() { err = vs.Valid(o.Addr().Interface()) })
+					c.Done(st.ra != nil || st.rb != nil, 1)
+					actual := ""
+					if err != nil {
+						actual = err.Error()
+					}
+					det := map[string]interface{}{"rule_sets": st.name, "a.Name": na, "b.Name": nb, "b_registered_first": order, "expected": exp.Error(), "actual": actual}
+					if pan {
+						det["panic"] = msg
+						c.Violation("panic@"+site, det)
+						continue
+					}
+					if actual != exp.Error() {
+						c.Violation("same-printing-types/rule-set-applied-by-name", det)
+					}
+				}
+			}
+		}
+	}
 }
 
 var lateSeq int
@@ -446,7 +541,7 @@ func main() {
 		Technique: "complete product of tag rules x typed/unscoped rule sets x function definitions (per-call/global/built-in) x values x entry points vs selection model",
 		Rule: "9 named (Outer,Inner) type pairs sharing the field name Name with tag rule in {none, required, to=2~3}; rule set for Outer in {absent, empty, {Name}, {Name,In}}, for Inner in {absent, empty, {Name}, {Code}}, " +
 			"unscoped in {absent, empty, {Name}, {Name,L}}, registered in three orders; 72 value assignments; entry points VStruct.SetRule, Struct(v,rm), StructForFn(s), NestedStructForRule; function names phone (built-in) and zz (unknown) " +
-			"defined at every subset of {per call, global} (one worker set per global registration set, plus one in which every type has been validated before the global functions are registered, and a space of names registered between two validations of one type); expected clause string from the walk model; non-trivial = Outer and Inner both carry a non-empty rule set for the shared field name",
+			"defined at every subset of {per call, global} (one worker set per global registration set, plus one in which every type has been validated before the global functions are registered, a space of names registered between two validations of one type, and two distinct struct types that print alike with a rule set for one of them); expected clause string from the walk model; non-trivial = Outer and Inner both carry a non-empty rule set for the shared field name",
 		Assumptions: []string{"a non-empty typed set for the outermost type combined with a non-empty unscoped set is not specified and not enumerated", "unscoped sets are exercised with single-struct inputs"},
 		Run:         run,
 		Modes:       []runner.Mode{{Name: "g"}, {Name: "gp"}, {Name: "gz"}, {Name: "gpz"}, {Name: "gpzL", Workers: 8}},
